@@ -17,7 +17,7 @@ RULE = ("string frames (2..6 feature columns + label, 5..200 rows) x interaction
         "tuples whose plain concatenations coincide; non-trivial = some new column whose rows are neither all equal nor "
         "all distinct; distinct = distinct canonical cases")
 THEOREMS = ["C10_enc_inj", "C10_equal_iff", "C10_equal_if", "C10_name", "C10_originals_untouched", "C10_new_columns",
-            "C10_rows_iff", "C10_score", "C10_score_equal", "C10_prefix_refuted", "C10_old_partition_refuted",
+            "C10_rows_iff", "C10_score", "C10_score_equal", "C10_no_collision_satisfiable", "C10_prefix_refuted", "C10_old_partition_refuted",
             "C10_candidates", "C10_checker_sound", "C10_partition_test_exact"]
 
 PREFIX_POOL = ["1", "11", "111", "1111", "", "12", "21", "121", "112", "211", "a", "ab", "abc", "b", "bc", "c", "ba",
@@ -227,6 +227,9 @@ def candidate_names(case):
     return {sep.join(c): c for c in itertools.combinations(feats, k)}
 
 
+# the real estimator returns float32 and sums its strata in code order: 1e-6 (relative to max(1, |score|)) is ~8 float32 ulps
+SCORE_TOL = 1e-6
+
 HEADER = ("From Coq Require Import List NArith ZArith.\nFrom Outrank Require Import Features.Interact.\n"
           "Import ListNotations.\nOpen Scope N_scope.")
 
@@ -307,6 +310,10 @@ def evaluate_units(cases):
                     {"column": new_names[k], "witness": witness(c, new_names[k], new_cols[k])})
         elif r.get("nonstr"):
             fail = ("values of the new columns are strings (hash digests)", "non-str cells: %d" % r["nonstr"])
+        elif r.get("score_agreement") and r["score_agreement"][0] > SCORE_TOL * r["score_agreement"][1]:
+            sa = r["score_agreement"]
+            fail = ("hence its score equals the score of the explicit value tuple",
+                    {"column": sa[2], "scorer": sa[3], "score_of_interaction_column": sa[4], "score_of_tuple_coded_column": sa[5]})
         verdicts[i] = {"fail": fail, "impl": r, "coq": v, "ncand": ncand}
     return verdicts
 
@@ -436,7 +443,16 @@ def check(run, replay):
     run.oblige("build:model Features/Interact.vo", ok, "" if ok else log[-1500:])
     if not ok:
         raise vlib.Broken("build:Features/Interact.vo", log)
-    vlib.standard_proof_phase(run, ["Props/C10.vo"], "Outrank.Props.C10", THEOREMS)
+    if vlib.standard_proof_phase(run, ["Props/C10.vo"], "Outrank.Props.C10", THEOREMS):
+        # the one theorem over R (MI estimator of MI/Model.v): exactly the four standard Reals axioms are allowed, for it only
+        try:
+            ax = vlib.audit(run.pid, "Outrank.Props.C10", ["C10_score_MI"], vlib.STD_REAL_AXIOMS)
+            run.oblige("theorem:C10_score_MI", True, "axioms: " + ", ".join(ax["C10_score_MI"]))
+            run.cov.setdefault("axioms_per_theorem", {})["C10_score_MI"] = ax["C10_score_MI"]
+            run.trusted.append("C10_score_MI only: standard-library Reals axioms " + ", ".join(ax["C10_score_MI"]))
+        except vlib.Broken as b:
+            run.oblige(b.obligation, False, b.detail)
+            run.violation("broken-obligation", b.obligation, found_input=False, extra=b.detail[-3000:])
 
     if replay is not None:
         cases = [replay["case"]]
@@ -493,6 +509,10 @@ def check(run, replay):
             else:
                 nd = len(u["names"])
                 hist["new_columns"] += len(r["names"]) - nd
+                if r.get("score_agreement"):
+                    sa = r["score_agreement"]
+                    hist["columns_scored_against_tuple_coding"] = hist.get("columns_scored_against_tuple_coding", 0) + (len(r["names"]) - nd)
+                    hist["worst_score_difference"] = max(hist.get("worst_score_difference", 0.0), sa[0] / sa[1])
                 if r.get("digest_exact"):
                     hist["columns_equal_to_xxh64_of_model_enc"] = hist.get("columns_equal_to_xxh64_of_model_enc", 0) + r["digest_exact"][0]
                 if 0 <= u["cap"] < uvd.get("ncand", 0) or u["cap"] < 0:
@@ -557,7 +577,10 @@ def check(run, replay):
         "case and kept between the batches of a history case; which combinations are kept under a "
         "binding cap is checked as: distinct, each the join of a candidate, cap_len many (the choice among ties is C07's)",
         "column names contain no ' AND ' (names of distinct combinations are then distinct)",
-        "C10_equal_iff / C10_score assume the hash is injective (64-bit collisions are outside the statement)",
+        "C10_equal_iff / C10_rows_iff / C10_score* assume no collision among the strings hashed for the frame at hand "
+        "(no_collision; 64-bit collisions are outside the statement); global injectivity of the hash is not assumed",
+        "supporting comparison (not a proof): every new column of a small frame and an explicitly tuple-coded column are scored "
+        "by the real numba MI estimator (correction off/on) and max-value-coverage against the label; equal to 1e-6 relative",
     ]
     run.assumptions.append("args namespaces start from the defaults of outrank/__main__.py's parser (num_threads=8, ...) "
                            "and override label / order / cap; large frames are additionally run with num_threads 1 and 4")
